@@ -66,6 +66,9 @@ static std::vector<uint8_t> read_file(const char* path) {
     return v;
 }
 
+static volatile sig_atomic_t g_stop_requested = 0;
+static void on_term(int) { g_stop_requested = 1; }
+
 int main(int argc, char** argv) {
     const char *stats = "", *failp = "", *cur = nullptr, *replay = nullptr, *known = nullptr, *batch = nullptr;
     bool rc_mode = false;
@@ -128,7 +131,13 @@ int main(int argc, char** argv) {
         // candidate is accepted unseen, which ends the shrink with the smallest failing input found so far
         auto cpu_now = [] { struct timespec ts; clock_gettime(CLOCK_PROCESS_CPUTIME_ID, &ts); return (double)ts.tv_sec + (double)ts.tv_nsec * 1e-9; };
         double fail_t0 = 0, shrink_budget = getenv("VERIF_SHRINK_BUDGET_S") ? atof(getenv("VERIF_SHRINK_BUDGET_S")) : 40.0;
+        signal(SIGTERM, on_term);   // the driver's wall-clock budget: finish at once, but keep the statistics of what was run
         bool ok = rc::check(verif_property(), [&](const std::vector<uint8_t>& v) {
+            if (g_stop_requested) {   // what was run counts; a failure found before the stop is still a failure (its replay file is current)
+                disarm_watchdog(); verif::flush_stats(stats);
+                if (failed) { fprintf(stderr, "VERIF-FAIL sig=%s msg=%s\n", sig.c_str(), msg.c_str()); _exit(1); }
+                _exit(0);
+            }
             if (failed && cpu_now() - fail_t0 > shrink_budget) return;
             cur_write(v.data(), v.size());
             if ((n++ & 63) == 0) arm_watchdog();
